@@ -35,6 +35,7 @@ DECIDED = [
     "C01.10 reversal guards (T.G5)",
     "C01.11 premise: an attached setup node is taken as an object's producer only for that very object (else the other object's producer chain is never parsed)",
     "C01.12 premise: state scans and syncs of a worker go through that worker's own session (cache keyed by host and port)",
+    "C01.13 the atoms the readiness rules use are what they say: is_flat, shared_results (own + every bridged node), pick/drop register the right (node, worker) pair",
 ]
 NOT_DECIDED = [
     "truthfulness of the state scan and of the pools' contents",
@@ -282,6 +283,10 @@ def run(ctx: Ctx) -> None:
 
     ctx.call(GR.dependency_lookup, "11")
     ctx.call(session_identity, "12")
+    from . import atoms as A
+
+    ctx.call(A.definitions, "13", only=('is_flat','shared_results','is_object_root'))
+    ctx.call(A.drop_registrations, "13d")
 
 
 G = "cartgraph/graph.py"
